@@ -438,6 +438,33 @@ func JudgeC12(c *Case, ex *Exec) []Finding {
 				}
 			}
 		}
+		// the convenience function is the two methods applied in sequence (a single run is
+		// both the first and the last run of its list)
+		for _, ws := range []fixed.Int26_6{160, -33} {
+			for _, ls := range []fixed.Int26_6{0, 1, 97} {
+				runs := []shaping.Output{copyOut(o)}
+				shaping.AddSpacing(runs, c.Text, ws, ls)
+				identities(fmt.Sprintf("after AddSpacing(word %d, letter %d)", ws, ls), runs[0], add)
+				m := copyOut(o)
+				if ws != 0 {
+					m.AddWordSpacing(c.Text, ws)
+				}
+				if ls != 0 {
+					m.AddLetterSpacing(ls, true, true)
+				}
+				if len(m.Glyphs) == len(runs[0].Glyphs) {
+					for i := range m.Glyphs {
+						if m.Glyphs[i] != runs[0].Glyphs[i] {
+							add("spacing-helper", "AddSpacing(word %d, letter %d): glyph %d differs from AddWordSpacing followed by AddLetterSpacing", ws, ls, i)
+							break
+						}
+					}
+				}
+				if m.Advance != runs[0].Advance {
+					add("spacing-helper", "AddSpacing(word %d, letter %d): run advance %d, the two methods in sequence give %d", ws, ls, runs[0].Advance, m.Advance)
+				}
+			}
+		}
 		// RecalculateAll restores all identities
 		r := copyOut(o)
 		r.AddLetterSpacing(96, false, false)
